@@ -31,7 +31,7 @@ REQUIRED_CLASSES = ["omit:origin", "omit:xyz", "omit:rpy", "omit:axis", "fixed:b
 
 def plan(tier, seed):
     if tier == "quick":
-        return [{"n": 20, "timeout_s": 1800} for _ in range(16)]
+        return [{"n": 50, "timeout_s": 1800} for _ in range(16)]
     return [{"n": 1250, "timeout_s": 14400} for _ in range(16)]
 
 
